@@ -58,6 +58,22 @@ def run(ctx):
             failing.append(dict(files=f, base=b, kind=tag, cls="duplicate", why="the same diagnostic is reported %d times: %s" % (items.count(dup), dup)))
             continue
         stable += 1
+    # ---- correspondence of the output stage: Model/Output.v output_order vs DiagnosticItem::sort_for_output ------------
+    oi = lib.run_impl(ctx, [lib.store_cmd("order", f, b) for f, b, _ in stores], limit_ms=8000, tag="order")
+    OIT = re.compile(r"O\((\S+) (\S+) (\S+) (\S+) (\d+)\.(\d+)\.(\d+)-(\d+)\.(\d+)\.(\d+)\)")
+    mcmds, mref = [], []
+    for (f, b, tag), line in zip(stores, oi):
+        m = re.match(r"^U\[(.*)\] S\[(.*)\] END$", line)
+        if not m:
+            continue
+        un = OIT.findall(m.group(1))
+        mcmds.append("order %d %s" % (len(un), " ".join(" ".join(x) for x in un)) if un else "order 0")
+        mref.append((f, b, tag, " ".join("O(%s %s %s %s %s.%s.%s-%s.%s.%s)" % x for x in OIT.findall(m.group(2)))))
+    mout = lib.run_model(ctx, mcmds, tag="order-model")
+    order_dis = []
+    for (f, b, tag, want), got in zip(mref, mout):
+        if got.strip() != want.strip():
+            order_dis.append(dict(files=f, base=b, kind=tag, why="output order/dedup: model %s... / implementation %s..." % (got[:200], want[:200])))
     # ---- separate processes, every output mode ------------------------------------------------------
     work = os.path.join(ctx.rundir, "cli")
     shutil.rmtree(work, ignore_errors=True)
@@ -112,8 +128,11 @@ def run(ctx):
         lib.violation(ctx, "input", dict(property="C10", input=fresh[0], all_failing=fresh[:10],
                                          how="lint the files repeatedly (harness command `repeat`, or rva lint --json in separate processes) and compare"), True)
         return
-    if not proof_ok:
-        common.broken_without_input(ctx, "theorems of Props/C10.v", dict(proof=ctx.proof["failed"]))
+    ctx.coverage["order_correspondence_cases"] = len(mcmds)
+    ctx.coverage["correspondence_disagreements"] = len(order_dis)
+    if order_dis or not proof_ok:
+        common.broken_without_input(ctx, "correspondence of the output stage (sort_for_output)" if order_dis else "theorems of Props/C10.v",
+                                    dict(disagreements=order_dis[:6], proof=ctx.proof["failed"]))
 
 
 replay = generic.replay
